@@ -70,61 +70,68 @@ def run(pid, tier, seed, replay, t0):
     broken = []      # obligations / correspondences that no longer check: dicts {what, name, detail}
     findings = []    # property-level failures with a concrete input
 
-    # ---- 1. translators + lake build
-    ok, out = vlib.run_translators()
-    if not ok:
-        broken.append({'what': 'obligation', 'name': 'translator tools/gen_*.py (source → Lean)', 'detail': out[-2000:]})
-    for gen in getattr(P, 'translators', []):
-        ok, out = gen(ctx)
+    # ---- 1+2 run under the build lock: one consistent set of Gen/*.lean and .olean files
+    lock = vlib.build_lock()
+    lock.__enter__()
+    try:
+        # ---- 1. translators + lake build
+        ok, out = vlib.run_translators()
         if not ok:
-            broken.append({'what': 'obligation', 'name': f'translator {gen.__name__}', 'detail': out[-2000:]})
-    targets = ['smoothdrv'] + list(P.lean_targets)
-    ok, out = vlib.lake_build(targets)
-    proofs_ok = ok
-    if not ok:
-        # which module failed?
-        failed = [l for l in out.splitlines() if l.startswith('✖') or 'error:' in l][:20]
-        log('lake build failed:', *failed[:6])
-        ok2, out2 = vlib.lake_build(['smoothdrv'])
-        if not ok2:
-            # the executable model itself does not build (e.g. a generated table changed shape)
-            broken.append({'what': 'obligation', 'name': 'lake build smoothdrv', 'detail': '\n'.join(failed)})
-            return verdict(P, ctx, broken, findings, {}, t0, proofs=None, fatal_model=True)
-        broken.append({'what': 'obligation', 'name': 'lake build ' + ' '.join(P.lean_targets),
-                       'detail': '\n'.join(failed)})
+            broken.append({'what': 'obligation', 'name': 'translator tools/gen_*.py (source → Lean)', 'detail': out[-2000:]})
+        for gen in getattr(P, 'translators', []):
+            ok, out = gen(ctx)
+            if not ok:
+                broken.append({'what': 'obligation', 'name': f'translator {gen.__name__}', 'detail': out[-2000:]})
+        targets = ['smoothdrv'] + list(P.lean_targets)
+        ok, out = vlib.lake_build(targets)
+        proofs_ok = ok
+        if not ok:
+            # which module failed?
+            failed = [l for l in out.splitlines() if l.startswith('✖') or 'error:' in l][:20]
+            log('lake build failed:', *failed[:6])
+            ok2, out2 = vlib.lake_build(['smoothdrv'])
+            if not ok2:
+                # the executable model itself does not build (e.g. a generated table changed shape)
+                broken.append({'what': 'obligation', 'name': 'lake build smoothdrv', 'detail': '\n'.join(failed)})
+                return verdict(P, ctx, broken, findings, {}, t0, proofs=None, fatal_model=True)
+            broken.append({'what': 'obligation', 'name': 'lake build ' + ' '.join(P.lean_targets),
+                           'detail': '\n'.join(failed)})
 
-    # ---- 2. proofs audit
-    proofs = {'obligations': 0, 'discharged': 0, 'theorems': [], 'axioms_seen': []}
-    if proofs_ok:
-        hits = vlib.grep_forbidden()
-        if hits:
-            raise vlib.MachineryError('forbidden tokens in Lean sources: ' + '; '.join(hits[:5]))
-        thms = []
-        for f in P.props_files:
-            thms += vlib.list_theorems(os.path.join(vlib.LEAN, f))
-        if not thms:
-            raise vlib.MachineryError('no property theorems found for ' + pid)
-        res, txt = vlib.axioms_audit(P.props_module, thms)
-        bad = []
-        axs = set()
-        for t in thms:
-            if res[t] is None:
-                bad.append(f'{t}: not found')
-            else:
-                axs.update(res[t])
-                extra = set(res[t]) - vlib.ALLOWED_AXIOMS
-                if extra:
-                    bad.append(f'{t}: axioms {sorted(extra)}')
-        if bad:
-            raise vlib.MachineryError('axiom audit failed: ' + '; '.join(bad[:5]) + '\n' + txt[-1500:])
-        proofs = {'obligations': len(thms), 'discharged': len(thms), 'theorems': thms, 'axioms_seen': sorted(axs)}
-        if tier == 'thorough':
-            # independent re-check of the compiled proofs by the toolchain's leanchecker
-            import subprocess
-            r = subprocess.run(['lake', 'env', 'leanchecker', P.props_module], cwd=vlib.LEAN, capture_output=True, text=True)
-            proofs['leanchecker'] = 'ok' if r.returncode == 0 else 'FAILED: ' + (r.stdout + r.stderr)[-500:]
-            if r.returncode != 0:
-                raise vlib.MachineryError('leanchecker rejected ' + P.props_module + ': ' + (r.stdout + r.stderr)[-800:])
+        # ---- 2. proofs audit
+        proofs = {'obligations': 0, 'discharged': 0, 'theorems': [], 'axioms_seen': []}
+        if proofs_ok:
+            hits = vlib.grep_forbidden()
+            if hits:
+                raise vlib.MachineryError('forbidden tokens in Lean sources: ' + '; '.join(hits[:5]))
+            thms = []
+            for f in P.props_files:
+                thms += vlib.list_theorems(os.path.join(vlib.LEAN, f))
+            if not thms:
+                raise vlib.MachineryError('no property theorems found for ' + pid)
+            res, txt = vlib.axioms_audit(P.props_module, thms)
+            bad = []
+            axs = set()
+            for t in thms:
+                if res[t] is None:
+                    bad.append(f'{t}: not found')
+                else:
+                    axs.update(res[t])
+                    extra = set(res[t]) - vlib.ALLOWED_AXIOMS
+                    if extra:
+                        bad.append(f'{t}: axioms {sorted(extra)}')
+            if bad:
+                raise vlib.MachineryError('axiom audit failed: ' + '; '.join(bad[:5]) + '\n' + txt[-1500:])
+            proofs = {'obligations': len(thms), 'discharged': len(thms), 'theorems': thms, 'axioms_seen': sorted(axs)}
+            if tier == 'thorough':
+                # independent re-check of the compiled proofs by the toolchain's leanchecker
+                import subprocess
+                r = subprocess.run(['lake', 'env', 'leanchecker', P.props_module], cwd=vlib.LEAN, capture_output=True, text=True)
+                proofs['leanchecker'] = 'ok' if r.returncode == 0 else 'FAILED: ' + (r.stdout + r.stderr)[-500:]
+                if r.returncode != 0:
+                    raise vlib.MachineryError('leanchecker rejected ' + P.props_module + ': ' + (r.stdout + r.stderr)[-800:])
+
+    finally:
+        lock.__exit__(None, None, None)
 
     # ---- 3. replay mode: re-execute exactly the stored case
     if replay:
